@@ -1486,6 +1486,9 @@ def run(chk, tier):
     from props import c05, c07
     chk.guard('C05.c', lambda: c05.rule_binary_types(chk, prog, tier))     # operand conversions / result types the lowering relies on
     chk.guard('C07.c', lambda: c07.rule_funcinit(chk, prog, tier))         # automatic initialisation
+    from props import c15
+    chk.guard('C15.f', lambda: c15.rule_case_conversion(chk, prog, tier))  # the case a value reaches: constants converted to the promoted controlling type
+    chk.guard('C15.e', lambda: c15.rule_controlling(chk, prog, tier))      # ... and the controlling expression promoted before its type is recorded for them
     from props import c02
     chk.guard('C07.d', lambda: c02.rule_initadd(chk, prog, tier, 'C07.d', bits=True))    # the initialiser list funcinit replays: overriding and ordering
     from props import c01f
